@@ -14,7 +14,7 @@
    their ASCII / UTF-8 bytes ([abytes] / [ubytes]). *)
 From AV Require Import Base.Util Model.Prim Model.MsgSet Model.Requests Model.KafkaSpecReq Model.ClientVersion
      Proofs.Truncation Proofs.ReqParsePrim Proofs.ReqParseGroup Proofs.ReqParseApis Proofs.ReqParseProduce
-     Proofs.ReqParseProducer Proofs.ClientVersionFacts.
+     Proofs.ReqParseProducer Proofs.ReqWf Proofs.ClientVersionFacts.
 
 (* ---- Produce v0 / v1 / v2 ----
    Vocabulary (Proofs/ReqParseProduce.v): [plain_pmsg off now m] = the fields of message m as the grammar sees them
@@ -73,6 +73,22 @@ Theorem C04_producer_request : forall orc clock eclock cid corr topic partition 
             format_matches_version r = true.
 Proof. exact producer_request_conforms. Qed.
 Print Assumptions C04_producer_request.
+
+(* the same for the whole batch: any list of payloads, each built by create_message_set from its own requests
+   ([built_ok]); canon = the grouped records with the views of what was created (the Producer's keys are distinct,
+   C09_one_payload, but the statement does not need it) *)
+Theorem C04_producer_batch : forall orc eclock cid corr bs codec acks timeout st pv mg w,
+  oracle_gzip_ok orc ->
+  resolved_ok st -> version_for st PRODUCE_KEY = Some pv -> producer_magic st = Some mg ->
+  codec = CODEC_NONE \/ codec = CODEC_GZIP ->
+  Forall (built_ok orc codec mg) bs ->
+  encode_produce_request eclock cid corr (map payload_of bs) acks timeout pv = Ok w ->
+  exists r, parse_request orc w = Some r /\
+            r = mkSreq 0 (produce_header_version pv) corr (Some cid)
+                       (SProduce acks timeout (built_views codec mg (group_by_topic_and_partition b_topic b_partition bs))) /\
+            format_matches_version r = true.
+Proof. exact producer_batch_conforms. Qed.
+Print Assumptions C04_producer_batch.
 
 (* ---- Fetch v0 / v1 / v2: one layout; the header carries min(api_version, 2) ---- *)
 Theorem C04_fetch : forall orc cid corr payloads max_wait min_bytes v w,
@@ -206,6 +222,118 @@ Theorem C04_group_sound : forall {Pl} (topic : Pl -> text) (part : Pl -> Z) ps t
   In x ps /\ topic x = t /\ part x = p.
 Proof. intros Pl. exact (@group_sound Pl). Qed.
 Print Assumptions C04_group_sound.
+
+(* ---- the requests ARE emitted: well-formed arguments -> the encoder returns AND the bytes parse ----
+   The theorems above are conditional on `encode = Ok w`.  The boolean predicates of Proofs/ReqWf.v say when that
+   holds - every integer inside the range struct.pack accepts for its wire field ([in_i16] / [in_i32] / [in_i64] /
+   [in_u8]), the client id at most 32767 bytes, every string encodable (ASCII resp. UTF-8) to at most 32767 bytes and,
+   for the fields the grammar types STRING / BYTES (not the NULLABLE ones), PRESENT ([astr_wf], [ustr_wf], [bytes_wf] are
+   false on None), counts and sizes at most 2^31-1.  At the level of a single writer the predicates are exact
+   (PrimFacts.pack_ok_iff, write_short_bytes_ok_iff, ReqWf.astr_ok_iff, ustr_ok_iff).
+   None for a non-nullable string is NOT rejected by afkak's encoders: they emit length -1, which is not a request of
+   the grammar (Example null_string_not_grammatical); the public entry points never pass one (KafkaClient coerces
+   topics and groups with _coerce_topic / _coerce_consumer_group, which raise TypeError on None; checked at run time). *)
+Theorem C04_api_versions_wf : forall orc cid corr, hdr_wf cid corr = true ->
+  exists w, encode_api_versions_request cid corr API_VERSIONS_KEY 0 = Ok w /\
+            parse_request orc w = Some (mkSreq 18 0 corr (Some cid) SApiVersions).
+Proof. exact api_versions_conforms. Qed.
+Print Assumptions C04_api_versions_wf.
+
+Theorem C04_produce_wf : forall orc clock cid corr ps acks timeout v,
+  clock_wf clock -> produce_plain_wf cid corr ps acks timeout v = true ->
+  exists w, encode_produce_request clock cid corr ps acks timeout v = Ok w /\
+            parse_request orc w = Some (mkSreq 0 (produce_header_version v) corr (Some cid)
+                                               (SProduce acks timeout (canon_produce clock ps))).
+Proof. exact produce_conforms. Qed.
+Print Assumptions C04_produce_wf.
+
+Theorem C04_fetch_wf : forall orc cid corr ps max_wait min_bytes v, fetch_wf cid corr ps max_wait min_bytes v = true ->
+  exists w, encode_fetch_request cid corr ps max_wait min_bytes v = Ok w /\
+            parse_request orc w = Some (mkSreq 1 (fetch_header_version v) corr (Some cid)
+                                               (SFetch (-1) max_wait min_bytes (canon_fetch ps))).
+Proof. exact fetch_conforms. Qed.
+Print Assumptions C04_fetch_wf.
+
+Theorem C04_list_offsets_wf : forall orc cid corr ps, offsets_wf cid corr ps = true ->
+  exists w, encode_offset_request cid corr ps = Ok w /\
+            parse_request orc w = Some (mkSreq 2 0 corr (Some cid) (SListOffsets (-1) (canon_offsets ps))).
+Proof. exact offsets_conforms. Qed.
+Print Assumptions C04_list_offsets_wf.
+
+Theorem C04_metadata_wf : forall orc cid corr topics, metadata_wf cid corr topics = true ->
+  exists w, encode_metadata_request cid corr topics = Ok w /\
+            parse_request orc w = Some (mkSreq 3 0 corr (Some cid) (SMetadata (map abytes topics))).
+Proof. exact metadata_conforms. Qed.
+Print Assumptions C04_metadata_wf.
+
+Theorem C04_offset_commit_wf : forall orc cid corr group gen consumer ps, commit_wf cid corr group gen consumer ps = true ->
+  exists w, encode_offset_commit_request cid corr group gen consumer ps = Ok w /\
+            parse_request orc w = Some (mkSreq 8 1 corr (Some cid)
+                                               (SOffsetCommit (abytes group) gen (abytes consumer) (canon_commit ps))).
+Proof. exact offset_commit_conforms. Qed.
+Print Assumptions C04_offset_commit_wf.
+
+Theorem C04_offset_fetch_wf : forall orc cid corr group ps, ofetch_wf cid corr group ps = true ->
+  exists w, encode_offset_fetch_request cid corr group ps = Ok w /\
+            parse_request orc w = Some (mkSreq 9 1 corr (Some cid) (SOffsetFetch (abytes group) (canon_ofetch ps))).
+Proof. exact offset_fetch_conforms. Qed.
+Print Assumptions C04_offset_fetch_wf.
+
+Theorem C04_find_coordinator_wf : forall orc cid corr group, hdr_wf cid corr && astr_wf group = true ->
+  exists w, encode_consumermetadata_request cid corr group = Ok w /\
+            parse_request orc w = Some (mkSreq 10 0 corr (Some cid) (SFindCoordinator (abytes group))).
+Proof. exact find_coordinator_conforms. Qed.
+Print Assumptions C04_find_coordinator_wf.
+
+Theorem C04_join_group_wf : forall orc cid corr p, join_wf cid corr p = true ->
+  exists w, encode_join_group_request cid corr p = Ok w /\
+            parse_request orc w = Some (mkSreq 11 0 corr (Some cid)
+              (SJoinGroup (ubytes (jg_group p)) (jg_session_timeout p) (ubytes (jg_member_id p)) (ubytes (jg_protocol_type p))
+                          (map (fun gp => (abytes (fst gp), obytes_val (snd gp))) (jg_protocols p)))).
+Proof. exact join_group_conforms. Qed.
+Print Assumptions C04_join_group_wf.
+
+Theorem C04_sync_group_wf : forall orc cid corr p, sync_wf cid corr p = true ->
+  exists w, encode_sync_group_request cid corr p = Ok w /\
+            parse_request orc w = Some (mkSreq 14 0 corr (Some cid)
+              (SSyncGroup (ubytes (sg_group p)) (sg_generation_id p) (ubytes (sg_member_id p))
+                          (map (fun ma => (ubytes (fst ma), obytes_val (snd ma))) (sg_assignment p)))).
+Proof. exact sync_group_conforms. Qed.
+Print Assumptions C04_sync_group_wf.
+
+Theorem C04_heartbeat_wf : forall orc cid corr group gen member,
+  hdr_wf cid corr && ustr_wf group && in_i32 gen && ustr_wf member = true ->
+  exists w, encode_heartbeat_request cid corr group gen member = Ok w /\
+            parse_request orc w = Some (mkSreq 12 0 corr (Some cid) (SHeartbeat (ubytes group) gen (ubytes member))).
+Proof. exact heartbeat_conforms. Qed.
+Print Assumptions C04_heartbeat_wf.
+
+Theorem C04_leave_group_wf : forall orc cid corr group member,
+  hdr_wf cid corr && ustr_wf group && ustr_wf member = true ->
+  exists w, encode_leave_group_request cid corr group member = Ok w /\
+            parse_request orc w = Some (mkSreq 13 0 corr (Some cid) (SLeaveGroup (ubytes group) (ubytes member))).
+Proof. exact leave_group_conforms. Qed.
+Print Assumptions C04_leave_group_wf.
+
+(* ---- payload lists with repeated (topic, partition) ----
+   With distinct keys nothing is lost: every payload of the list is stored (and hence encoded) under its own key. *)
+Theorem C04_group_complete : forall {Pl} (topic : Pl -> text) (part : Pl -> Z) ps x,
+  keys_distinct topic part ps -> In x ps ->
+  lookup2 (topic x) (part x) (group_by_topic_and_partition topic part ps) = Some x.
+Proof. intros Pl. exact (@group_complete Pl). Qed.
+Print Assumptions C04_group_complete.
+
+(* WITHOUT distinct keys canon is not injective: the messages of an earlier payload for the same (topic, partition)
+   never reach the wire (C04_group_last_wins) - two payload lists that differ in a message are encoded to the same
+   bytes.  This is the encoder's documented dict semantics (_util.py:209-213); it is outside what afkak's own callers
+   do: the Producer builds ONE payload per topic-partition (Props/C09.v, C09_one_payload: NoDup (map fst v)) and the
+   Consumer sends one payload.  A direct caller of send_produce_request passing duplicates loses the earlier one. *)
+Theorem C04_duplicate_keys_injective_refuted :
+  pr_messages dup_first <> pr_messages dup_second /\
+  exists w, encode_produce_request (fun _ => 0) [99] 1 [dup_first; dup_second] 1 1000 0 = Ok w /\
+            encode_produce_request (fun _ => 0) [99] 1 [dup_second] 1 1000 0 = Ok w.
+Proof. exact duplicate_keys_lose_messages. Qed.
+Print Assumptions C04_duplicate_keys_injective_refuted.
 
 (* ---- version negotiation ----
    [outs] = the outcomes of the successive ApiVersions attempts.  For every sequence in which each table
@@ -366,3 +494,35 @@ Example race_nonvacuous :
   choose (cell (run_events true (race_prefix ++ [Reply 0 Unavailable]))) = Some (mkChoice 7 2 (Some 2) 10 2 (Some 2) 1) /\
   choose (cell (run_events true (race_prefix ++ [Reply 0 (Answer 35 [])]))) = Some (mkChoice 7 2 (Some 2) 10 2 (Some 2) 1).
 Proof. split; [vm_compute; reflexivity|]. split; vm_compute; reflexivity. Qed.
+
+(* None where the grammar has a non-nullable STRING: the encoder returns, the bytes (length -1) are not a request *)
+Example null_string_not_grammatical :
+  metadata_wf ex_cid 1 [None] = false /\
+  match encode_metadata_request ex_cid 1 [None] with
+  | Ok w => w = [0; 3; 0; 0; 0; 0; 0; 1; 0; 3; 97; 102; 107; 0; 0; 0; 1; 255; 255] /\ parse_request marker_oracle w = None
+  | Err _ => False
+  end.
+Proof. split; [reflexivity|]. vm_compute. split; reflexivity. Qed.
+
+(* well-formedness is satisfiable, also at the boundaries *)
+Example wf_nonvacuous :
+  fetch_wf ex_cid 2147483647 ex_fetch (-2147483648) 0 32767 = true /\
+  produce_plain_wf ex_cid (-1) ex_produce (-1) 2147483647 2 = true /\
+  clock_wf (fun _ => 1000) /\
+  commit_wf [] 0 (Some []) (-1) (Some []) [mkCommit ex_topic 0 9223372036854775807 (-1) None] = true /\
+  join_wf ex_cid 1 (mkJoin (Some [103; 233]) 30000 (Some []) (Some [99]) [(Some [114], Some [])]) = true /\
+  fetch_wf ex_cid 2147483648 ex_fetch 0 0 0 = false /\
+  metadata_wf ex_cid 1 [Some [233]] = false.
+Proof.
+  split; [vm_compute; reflexivity|]. split; [vm_compute; reflexivity|]. split; [intros k; reflexivity|].
+  split; [vm_compute; reflexivity|]. split; [vm_compute; reflexivity|]. split; vm_compute; reflexivity.
+Qed.
+
+(* literal wire bytes, independent of every shared function: a non-BMP code point in a UTF-8 STRING field
+   (U+1F600 = F0 9F 98 80) and the CRC-32 check value 0xCBF43926 of "123456789" *)
+Example literal_utf8_heartbeat :
+  encode_heartbeat_request [] 0 (Some [128512]) 7 (Some [233])
+  = Ok [0; 12; 0; 0; 0; 0; 0; 0; 0; 0;  0; 4; 240; 159; 152; 128;  0; 0; 0; 7;  0; 2; 195; 169].
+Proof. vm_compute. reflexivity. Qed.
+Example literal_crc_check_value : Crc.crc32 [49; 50; 51; 52; 53; 54; 55; 56; 57] = 0xCBF43926.
+Proof. vm_compute. reflexivity. Qed.
